@@ -109,17 +109,22 @@ pub mod gen {
     }
 }
 
-/// Run the real single-input `Start` with `n` upstream replicas on the given arrival order.
-/// Returns everything `next()` returned up to and including `Terminate`, or an error when
-/// it panicked or did not terminate within the watchdog time.
-pub fn drive_single<T: ExchangeData>(n: u64, arrivals: Vec<Batch<T>>) -> Result<Vec<E<T>>, String> {
-    let mut net = Net::new(5);
-    let senders = net.add_prev::<T>(1, n);
-    let mut start = verif::start_single::<T>(1);
-    start.setup(&mut net.metadata(BatchMode::fixed(1024)));
-    let (tx, rx) = mpsc::channel::<E<T>>();
+/// Push `arrivals` into the single input channel of a set-up chain that begins with the
+/// real `Start`, while a worker pulls `next()` until `Terminate`.
+pub fn drive1<T, Op>(
+    mut chain: Op,
+    net: Net,
+    senders: Vec<verif::NetSender<T>>,
+    arrivals: Vec<Batch<T>>,
+) -> Result<Vec<E<Op::Out>>, String>
+where
+    T: ExchangeData,
+    Op: Operator + 'static,
+    Op::Out: Send + 'static,
+{
+    let (tx, rx) = mpsc::channel::<E<Op::Out>>();
     let worker = std::thread::spawn(move || loop {
-        let e = start.next();
+        let e = chain.next();
         let end = matches!(e, E::Terminate);
         if tx.send(e).is_err() || end {
             break;
@@ -148,6 +153,40 @@ pub fn drive_single<T: ExchangeData>(n: u64, arrivals: Vec<Batch<T>>) -> Result<
     drop(rx);
     let _ = worker.join();
     res.map(|_| out)
+}
+
+/// Run the real single-input `Start` with `n` upstream replicas on the given arrival order.
+/// Returns everything `next()` returned up to and including `Terminate`, or an error when
+/// it panicked or did not terminate within the watchdog time.
+pub fn drive_single<T: ExchangeData>(n: u64, arrivals: Vec<Batch<T>>) -> Result<Vec<E<T>>, String> {
+    let mut net = Net::new(5);
+    let senders = net.add_prev::<T>(1, n);
+    let mut start = verif::start_single::<T>(1);
+    start.setup(&mut net.metadata(BatchMode::fixed(1024)));
+    drive1(start, net, senders, arrivals)
+}
+
+/// Build `source.build(..)` with the public API where `build` crosses exactly one block
+/// boundary (e.g. `.fold`, `.group_by(..).fold(..)`), take the real chain of the new block
+/// (`Start -> ...`) and drive it with `n` hand-driven upstream replicas.
+pub fn drive_after_start<T, Op, F>(n: u64, arrivals: Vec<Batch<T>>, build: F) -> Result<Vec<E<Op::Out>>, String>
+where
+    T: ExchangeData,
+    Op: Operator + 'static,
+    Op::Out: Send + 'static,
+    F: FnOnce(renoir::Stream<crate::script::Script<T>>) -> renoir::Stream<Op>,
+{
+    let env = renoir::StreamContext::new(renoir::RuntimeConfig::local(1).unwrap());
+    let src = env.stream(crate::script::Script::<T>::new(vec![]));
+    let src_id = verif::block_id(&src);
+    let stream = build(src);
+    let dest = verif::block_id(&stream);
+    assert_ne!(src_id, dest, "build must cross a block boundary");
+    let mut chain = verif::into_chain(stream);
+    let mut net = Net::new(dest);
+    let senders = net.add_prev::<T>(src_id, n);
+    chain.setup(&mut net.metadata(BatchMode::fixed(1024)));
+    drive1(chain, net, senders, arrivals)
 }
 
 /// A delivery to one of the two inputs of a binary block.
